@@ -16,6 +16,10 @@ pub struct VehicleCfg {
     pub cache: Option<(usize, i32, i32)>, // size, speed precision, grade precision
     pub battery_kwh: f64,
     pub adjustment: Option<f64>,
+    /// unit the battery capacity is configured in (None: kilowatt_hours); the capacity is the same
+    /// physical quantity, converted with the repository's own factor
+    #[serde(default)]
+    pub battery_unit: Option<String>,
 }
 
 #[derive(Clone, Debug, Serialize, Deserialize)]
@@ -165,6 +169,15 @@ fn gz_members(data: &[u8], members: u8) -> Vec<u8> {
         start = end;
     }
     out
+}
+
+/// the configured battery capacity: (value, unit name)
+fn battery(v: &VehicleCfg) -> (f64, String) {
+    match v.battery_unit.as_deref() {
+        Some("gallons_gasoline") => (v.battery_kwh * 0.031, "gallons_gasoline".into()),
+        Some("gallons_diesel") => (v.battery_kwh * 0.02457, "gallons_diesel".into()),
+        _ => (v.battery_kwh, "kilowatt_hours".into()),
+    }
 }
 
 fn gz_members_of(w: &World, data: &[u8]) -> Vec<u8> {
@@ -584,16 +597,16 @@ impl World {
                             "bev" => {
                                 let mut m = rec(&v.name, &v.model, "kilowatt_hours_per_mile");
                                 m["type"] = json!("bev");
-                                m["battery_capacity"] = json!(v.battery_kwh);
-                                m["battery_capacity_unit"] = json!("kilowatt_hours");
+                                m["battery_capacity"] = json!(battery(v).0);
+                                m["battery_capacity_unit"] = json!(battery(v).1);
                                 m
                             }
                             _ => {
                                 json!({
                                     "type": "phev",
                                     "name": v.name,
-                                    "battery_capacity": v.battery_kwh,
-                                    "battery_capacity_unit": "kilowatt_hours",
+                                    "battery_capacity": battery(v).0,
+                                    "battery_capacity_unit": battery(v).1,
                                     "charge_depleting": rec(&v.name, &v.model, "kilowatt_hours_per_mile"),
                                     "charge_sustaining": rec(&v.name, v.model2.as_deref().unwrap_or(&v.model), "gallons_gasoline_per_mile"),
                                 })
